@@ -8,3 +8,8 @@ add("C11","exploration",
  "Held on the generated valid queries (all clause orders, keyword cases, separator styles, back-quoted and quoted operands), the 28 malformed classes and the mutants/prefixes listed in the evidence; not a proof about the whole grammar.",
  "Trusted: the harness' query model and reference evaluator (internal/mq), Go regexp/strconv; lower-case operator/function names only.",
  "DESIGN.md §2 C11")
+add("C05","exploration",
+ "runtime monitoring: seeded table/query/partition generator; the real server aggregator, wire messages and client merge run in worker processes (forced partial transmissions) and as real dmap over SSH against several servers; oracle = independent reference evaluator + central-vs-partitioned comparison of the observed CSV results",
+ "Held on the generated (table, query, partition) triples and e2e runs counted in the evidence; partitions up to 4 servers x 3 files x 2 forced transmissions per file in-process, up to 5 servers e2e.",
+ "Trusted: reference evaluator (internal/mq) written from the documentation, Go strconv; avg over non-numeric lines compared between runs only; e2e uses one file per server (known finding c06.agg-early-exit).",
+ "DESIGN.md §2 C05")
